@@ -391,6 +391,8 @@ def tr_assembler(fn, scalar_fns):
             if a.id not in params:
                 refuse(f"argument {a.id} is not a parameter", s)
         cells[(i_, j_)] = f"{lname} {' '.join(ident(a.id) for a in v.args)}"
+        assembler_cells.setdefault(ident(name), {})[(i_, j_)] = (lname, [ident(a.id) for a in v.args])
+    assembler_cells.setdefault(ident(name), {})
     rows = []
     for i_ in range(3):
         rows.append("⟨" + ", ".join(cells.get((i_, j_), "n 0") for j_ in range(3)) + "⟩")
@@ -399,6 +401,73 @@ def tr_assembler(fn, scalar_fns):
 
 
 BASE_ARGS = ["r", "phi", "z", "r_i", "phi_j", "z_k", "phi_M", "theta_M"]  # the tiled inputs of magnet_cylinder_segment_Hfield
+
+MAG_ARGS = ("phi_bar_M", "phi_bar_Mj", "theta_M")  # the arguments of the case functions that carry the magnetization direction
+
+
+def mag_scan(fn):
+    """syntactic scan of one case function for the way the magnetization direction enters.
+    -> (special, offences):
+       special  = [(special function, sorted parameter names its arguments depend on, through the local assignments)]
+       offences = [description] of every place where an expression that depends on theta_M / phi_bar_M / phi_bar_Mj is
+                  the argument of a call other than np.sin / np.cos, a denominator, the base of a power, an operand of
+                  `%` or of a comparison (places where the dependence could not be linear in the direction vector)"""
+    params = [p.arg for p in fn.args.args]
+    deps = {p: {p} for p in params}  # local name -> parameters it depends on
+
+    def dep(e, env):
+        out = set()
+        for x in ast.walk(e):
+            if isinstance(x, ast.Name) and x.id in env:
+                out |= env[x.id]
+        return out
+
+    special, offences = [], []
+
+    def scan(e, env):
+        mag = lambda x: bool(dep(x, env) & set(MAG_ARGS))
+        for x in ast.walk(e):
+            if isinstance(x, ast.Call):
+                fname = ast.unparse(x.func)
+                if fname in SPECIAL:
+                    d = set()
+                    for a in x.args:
+                        d |= dep(a, env)
+                    special.append((SPECIAL[fname][0], sorted(d)))
+                if fname not in ("np.sin", "np.cos"):
+                    for a in list(x.args) + [k.value for k in x.keywords]:
+                        if mag(a):
+                            offences.append(f"argument of {fname}: {ast.unparse(a)[:50]}")
+                    if isinstance(x.func, ast.Name) and x.func.id in env and mag(x.func) and not any(mag(a) for a in x.args):
+                        pass  # a local function whose body mentions the direction: scanned where it is defined
+            elif isinstance(x, ast.BinOp):
+                if isinstance(x.op, ast.Div) and mag(x.right):
+                    offences.append(f"denominator: {ast.unparse(x.right)[:50]}")
+                if isinstance(x.op, ast.Pow) and mag(x.left):
+                    offences.append(f"base of a power: {ast.unparse(x.left)[:50]}")
+                if isinstance(x.op, ast.Mod) and (mag(x.left) or mag(x.right)):
+                    offences.append(f"operand of %: {ast.unparse(x)[:50]}")
+            elif isinstance(x, ast.Compare) and mag(x):
+                offences.append(f"comparison: {ast.unparse(x)[:50]}")
+
+    def block(stmts, env):
+        for s in stmts:
+            if isinstance(s, ast.Assign) and len(s.targets) == 1 and isinstance(s.targets[0], ast.Name):
+                scan(s.value, env)
+                env[s.targets[0].id] = dep(s.value, env)
+            elif isinstance(s, ast.FunctionDef):
+                inner = dict(env)
+                for p in s.args.args:
+                    inner[p.arg] = set()
+                block(s.body, inner)
+                env[s.name] = inner.get("return", set())
+            elif isinstance(s, ast.Return) and s.value is not None:
+                scan(s.value, env)
+                env["return"] = dep(s.value, env)
+            # docstrings and anything else: the translation itself (Fn.body) refuses what it does not know
+
+    block(fn.body, deps)
+    return special, offences
 
 
 def tr_tables(fn, assemblers, toplevel):
@@ -454,6 +523,9 @@ def tr_tables(fn, assemblers, toplevel):
         fields.append((a, strip(t.num(ds[0].value))))
     if len(set(al)) != len(al):
         raise Refusal(f"{name}: allargs repeats a name")
+    dispatch_rows.clear()
+    allargs_fields.clear()
+    allargs_fields.update({ident(a): e for a, e in fields})
     out = []
     out.append(("AllArgs", "structure AllArgs (α : Type) where\n" + "".join(f"  {ident(a)} : α\n" for a in al)))
     out.append(("allArgs", f"def allArgs ({' '.join(ident(b) for b in BASE_ARGS)} : α) : AllArgs α :=\n  {{ "
@@ -467,6 +539,7 @@ def tr_tables(fn, assemblers, toplevel):
         if arity != len(args) or any(not 0 <= k < len(al) for k in args):
             raise Refusal(f"{name}: {f} takes {arity} arguments, table gives {args}")
         lines.append(f"  | {i} => some ({lname} {' '.join('a.' + ident(al[k]) for k in args)})")
+        dispatch_rows.append((i, lname, [ident(al[k]) for k in args]))
     lines.append("  | _ => none")
     out.append(("caseDispatch", "\n".join(lines) + "\n"))
     # boundary sum: np.sum(result[:, (1, 2, 4, 7)] - result[:, (0, 3, 5, 6)], axis=(1, 3))
@@ -481,6 +554,10 @@ def tr_tables(fn, assemblers, toplevel):
 
 
 assemblers_params = {}
+assembler_cells = {}  # lean name of an assembler -> {(component, face type): (case function, argument names)}
+dispatch_rows = []  # (case id, assembler, AllArgs fields passed)
+allargs_fields = {}  # AllArgs field -> its defining expression in the inputs of magnet_cylinder_segment_Hfield
+scalar_params = {}  # lean name of a case function -> its parameter names (lean identifiers), filled by translate()
 
 
 def source_tables(path=None):
@@ -536,6 +613,9 @@ def translate(path=None):
     scalar_fns, assemblers = {}, {}
     tables_fn = None
     assemblers_params.clear()
+    scalar_params.clear()
+    assembler_cells.clear()
+    special_rows, offence_rows = [], []
     for node in tree.body:
         if isinstance(node, (ast.Import, ast.ImportFrom)):
             continue
@@ -555,6 +635,13 @@ def translate(path=None):
             blocks.append((ln, text))
             toplevel[nm] = (ln, arity, kind)
             scalar_fns[nm] = (ln, arity, kind)
+            if nm not in ("arctan_k_tan_2", "close"):
+                scalar_params[ln] = [ident(p.arg) for p in node.args.args]
+                if "theta_M" not in scalar_params[ln]:
+                    raise Refusal(f"{nm}: case function without the parameter theta_M")
+                sp, off = mag_scan(node)
+                special_rows += [(ln, f, d) for f, d in sp]
+                offence_rows += [(ln, o) for o in off]
         elif re.fullmatch(r"case\d{3}", nm):
             ln, text, arity = tr_assembler(node, scalar_fns)
             blocks.append((ln, text))
@@ -576,6 +663,12 @@ def translate(path=None):
     q = lambda xs: "[" + ", ".join('"' + x + '"' for x in xs) + "]"
     blocks.append(("handPortedLiterals", "def handPortedLiterals : List (String × List String × List String) := [\n  "
                    + ",\n  ".join(f'("{nm}", {q(nums)}, {q(cmps)})' for nm, nums, cmps in rows) + "]\n"))
+    # how the magnetization direction enters the case functions (syntactic scan, see mag_scan)
+    q1 = lambda x: '"' + x.replace("\\", "\\\\").replace('"', "'") + '"'
+    blocks.append(("specialCallDeps", "def specialCallDeps : List (String × String × List String) := [\n  "
+                   + ",\n  ".join(f"({q1(fn_)}, {q1(sf)}, [{', '.join(q1(x) for x in d)}])" for fn_, sf, d in special_rows) + "]\n"))
+    blocks.append(("magArgOffences", "def magArgOffences : List (String × String) := ["
+                   + ", ".join(f"({q1(fn_)}, {q1(o)})" for fn_, o in offence_rows) + "]\n"))
     used = set()
     for _, text in blocks:
         used.update(re.findall(r"\b(H(?:r|phi|z)_(?:ri|phij|zk)_case\d{3}|case\d{3})\b", text))
@@ -593,6 +686,95 @@ def render(blocks, namespace):
             "open MagpyVerif MagpyVerif.Kern MagpyVerif.Kern.Num MagpyVerif.Kern.NumX\n"
             "variable {α : Type} [NumX α]\n\n")
     return head + "\n".join(text for _, text in blocks) + f"\nend {namespace}\n"
+
+
+LIN_BASE = "MagpyVerif.Lemmas.KernCylSegLinBase"
+FROZEN_LIN = os.path.join(HERE, "..", "lean", "MagpyVerif", "Lemmas", "KernCylSegLinGen.lean")
+
+
+def render_lin(path=None, namespace=FROZEN_NS, imports=(LIN_BASE,)):
+    """the statements "every case function / assembler / dispatch result is linear in the magnetization direction"
+    (vocabulary and the proof tactic: Lemmas/KernCylSegLinBase.lean), generated from the parameter lists: one theorem per
+    translated case function (`<f>_sphlin`, proved by the uniform tactic), one per assembler (`case<id>_sphlin`, from its
+    entries) and `caseDispatch_sphlin` (from the dispatch table).  `namespace` = where the definitions live
+    (the frozen model, or the regenerated copy MagpyVerif.Gen.CylSeg)."""
+    translate(path)
+    for k, want in (("phi_bar_M", "phi_M - phi"), ("phi_bar_Mj", "phi_M - phi_j"), ("theta_M", "theta_M")):
+        if allargs_fields.get(k) != want:
+            raise Refusal(f"render_lin: argument {k} is {allargs_fields.get(k)!r}, expected {want!r}")
+    for k, e in allargs_fields.items():
+        if k not in MAG_ARGS and re.search(r"\b(phi_M|theta_M)\b", e):
+            raise Refusal(f"render_lin: argument {k} = {e} depends on the magnetization direction")
+    inst = "(realNumX μ S)"
+    shift = {"phi_bar_M": "δ", "phi_bar_Mj": "δj"}
+
+    def binder(params):
+        vs = [p for p in params if p not in MAG_ARGS] + [shift[k] for k in ("phi_bar_M", "phi_bar_Mj") if k in params]
+        return f" ({' '.join(vs)} : ℝ)" if vs else ""
+
+    def app(params):
+        return " ".join({"theta_M": "θ", "phi_bar_M": "(φ - δ)", "phi_bar_Mj": "(φ - δj)"}.get(p, p) for p in params)
+
+    out = [f"-- statements generated from {REL_SRC} by translate/cylseg2lean.py (render_lin); proofs by the tactic of {LIN_BASE}"]
+    out += [f"import {i}" for i in imports]
+    out += ["", "set_option linter.unusedVariables false", "", f"namespace {namespace}", "open MagpyVerif MagpyVerif.Kern MagpyVerif.Kern.CylSeg", ""]
+    for f, params in scalar_params.items():
+        out.append(f"theorem {f}_sphlin (μ : ℝ) (S : SegSpecial){binder(params)} :\n"
+                   f"    SphLin fun φ θ => @{f} ℝ {inst} {app(params)} := by\n  cylseg_sphlin {f}\n")
+    for cname, cells in assembler_cells.items():
+        params = [ident(p) for p in assemblers_params[cname.rstrip('_') if cname not in assemblers_params else cname]]
+        if "theta_M" not in params:
+            raise Refusal(f"render_lin: {cname} without theta_M")
+        lines = [f"theorem {cname}_sphlin (μ : ℝ) (S : SegSpecial){binder(params)} :",
+                 f"    SphLinB fun φ θ => @{cname} ℝ {inst} {app(params)} := by", "  intro φ θ", "  apply blockExt"]
+        for i_ in range(3):
+            for j_ in range(3):
+                if (i_, j_) in cells:
+                    fn_, args = cells[(i_, j_)]
+                    actual = dict(zip(scalar_params[fn_], args))
+                    # the callee's shift variable is the caller's (same parameter name on both sides, checked)
+                    for k in ("phi_bar_M", "phi_bar_Mj", "theta_M"):
+                        if k in scalar_params[fn_] and actual[k] != k:
+                            raise Refusal(f"render_lin: {cname} passes {actual[k]} as {k} of {fn_}")
+                    ex = [f"({actual[p]})" for p in scalar_params[fn_] if p not in MAG_ARGS]
+                    ex += [shift[k] for k in ("phi_bar_M", "phi_bar_Mj") if k in scalar_params[fn_]]
+                    lines.append(f"  · exact {fn_}_sphlin μ S {' '.join(ex)} φ θ".replace("  φ θ", " φ θ"))
+                else:
+                    lines.append("  · exact sphLin_zero μ φ θ")
+        out.append("\n".join(lines) + "\n")
+    base = [ident(b) for b in BASE_ARGS if b not in ("phi_M", "theta_M")]
+    lines = [f"theorem caseDispatch_sphlin (μ : ℝ) (S : SegSpecial) (cid : Nat) ({' '.join(base)} : ℝ) :",
+             f"    SphLinO fun φ θ => @caseDispatch ℝ {inst} cid (@allArgs ℝ {inst} {' '.join(base)} φ θ) := by",
+             "  by_cases hm : cid ∈ caseIds",
+             "  · simp only [caseIds, List.mem_cons, List.not_mem_nil, or_false] at hm",
+             "    rcases hm with " + " | ".join(["h"] * len(dispatch_rows)) + " <;> subst h"]
+    for cid, cname, flds in dispatch_rows:
+        params = [ident(p) for p in assemblers_params[cname]]
+        m = dict(zip(params, flds))
+        for k in MAG_ARGS:
+            if k in params and m[k] != k:
+                raise Refusal(f"render_lin: the dispatch passes {m[k]} as {k} of {cname}")
+        ex = [f"({allargs_fields[m[p]]})" for p in params if p not in MAG_ARGS]
+        ex += [{"phi_bar_M": "phi", "phi_bar_Mj": "phi_j"}[k] for k in ("phi_bar_M", "phi_bar_Mj") if k in params]
+        lines.append(f"    · exact SphLinO.of_some ({cname}_sphlin μ S {' '.join(ex)})")
+    lines += ["  · have hn : ∀ a, @caseDispatch ℝ " + inst + " cid a = none := fun a => @caseDispatch_eq_none_of_not_mem ℝ " + inst + " cid a hm",
+              "    simp only [hn]", "    exact SphLinO.of_none"]
+    out.append("\n".join(lines) + "\n")
+    out.append(f"end {namespace}\n")
+    return "\n".join(out)
+
+
+def cylseg_lin_in_sync(path=None, frozen=None):
+    """is lean/MagpyVerif/Lemmas/KernCylSegLinGen.lean what render_lin produces from the source as it is now?
+    -> names of the theorems that differ / are present on one side only"""
+    def thms(text):
+        out = {}
+        for chunk in re.split(r"^(?=theorem )", text, flags=re.M)[1:]:
+            chunk = re.sub(r"\nend [\w.]+\s*$", "\n", chunk)
+            out[re.match(r"theorem (\S+)", chunk).group(1)] = " ".join(chunk.split())
+        return out
+    new, old = thms(render_lin(path)), thms(open(frozen or FROZEN_LIN).read())
+    return [k for k in new if old.get(k) != new[k]] + [k for k in old if k not in new]
 
 
 def split_defs(text):
@@ -627,8 +809,11 @@ def main():
     if "--namespace" in sys.argv:
         ns = sys.argv[sys.argv.index("--namespace") + 1]
     try:
+        if "--lin" in sys.argv:
+            sys.stdout.write(render_lin(namespace=ns))
+            return
         if "--check" in sys.argv:
-            bad = cylseg_in_sync()
+            bad = cylseg_in_sync() + ["lin:" + b for b in cylseg_lin_in_sync()]
             for b in bad:
                 print(f"OUT-OF-DATE {b}")
             sys.exit(1 if bad else 0)
